@@ -59,7 +59,7 @@ end
 theorem varDefNodes_inert (v : VarDef) : ∀ n ∈ varDefNodes v, Node.isCycNode n = false := by
   intro n hn
   simp only [varDefNodes, List.mem_cons, List.mem_append, List.not_mem_nil, or_false] at hn
-  rcases hn with rfl | hn | rfl
+  rcases hn with rfl | hn | rfl | hn
   · rfl
   · cases hd : v.default with
     | none => rw [hd] at hn; cases hn
@@ -68,6 +68,7 @@ theorem varDefNodes_inert (v : VarDef) : ∀ n ∈ varDefNodes v, Node.isCycNode
       have := valueNodes_kinds _ n hn
       cases n <;> simp_all [Node.isValueish, Node.isCycNode]
   · rfl
+  · exact dirsNodes_inert v.dirs n hn
 
 theorem mem_directSpreads {sels : List Sel} {f : String} :
     f ∈ Spec.directSpreads sels ↔ ∃ ds, Node.spread f ds ∈ selsNodes sels := by
